@@ -21,6 +21,8 @@ def gen_history(rng):
     size = rng.wpick([(5, None), (1, 1), (1, 2), (1, 3), (1, 5)])
     nonfinite = rng.chance(0.45)
     fvals = [s * m for s in (-2.0, -1.0, 0.0, 1.0, 2.0) for m in (1.0, 1.0 + 2.0 ** -40)]
+    # values one ulp apart: a tolerance-based "tie" must not swallow a strictly smaller objective
+    fvals += [math.nextafter(v, INF) for v in (-2.0, -1.0, 1.0, 2.0)] + [1e6, math.nextafter(1e6, INF)]
     cvals = [-1.0, 0.0, tol, math.nextafter(tol, INF), 0.5, 1.0, 2.0]
     length = rng.randint(1, 40)
     ops = []
